@@ -55,7 +55,9 @@ Agnostic / excluded corners
   stock Django (Parser over DebugLexer tokens) raises identically is attributed to Django.
 * the "randomly beyond" part of the quantifier is not used (no sampling decides anything).
 * time spent inside the `re` engine (DYNAMIC_EXPR_RE, _compile_take_until_pattern) is
-  invisible to line counting; only the 2 s / 20 s alarms guard it (exponential blow-up).
+  invisible to line counting: part regex_time pumps every <= 2 (thorough 3) token unit inside quote frames through
+  `is_dynamic_expression` and `parse_template`, k = 256..2048, and compares CPU time of doublings (limit 5.5x on both
+  of the last two doublings, judged only above 0.15 s); the 2 s / 20 s alarms catch exponential blow-up.
 * round trip is asserted for generated documented-syntax tags that parse_tag accepts; a
   generated tag that parse_tag rejects is counted (`rejected_valid`) but belongs to C02.
 """
@@ -907,6 +909,106 @@ def complexity_problem(steps, KS):
     return None
 
 
+# --------------------------------------------------------------------------- regex time (the part of the work line counting cannot see)
+RX_RATIO = 5.5  # CPU-time ratio of a doubling: quadratic -> 4, cubic -> 8
+RX_MIN_S = 0.15  # ... judged only when the larger member costs at least this much CPU time
+RX_CAP_S = 1.5  # stop pumping a family beyond this (the points measured so far are judged)
+RX_KS_QUICK = (256, 512, 1024)
+RX_KS_THOROUGH = (256, 512, 1024, 2048)
+RX_CLASSIFIER_ALPHA = ["{{", "}}", "{%", "%}", "{#", "#}", "a", '"', "\n"]
+RX_CLASSIFIER_FRAMES = [('"', '"'), ('"', '"|a'), ('"', "'"), ("'", "'"), ('"', "")]
+RX_LEXER_ALPHA = ["\\", '"', "'", "a", "%}", "{%", " "]
+RX_LEXER_FRAMES = [('{% a "', ""), ('{% a "', '" %}'), ('{% a "', " %}"), ("{% a '", "' %}"), ("{% a ", " %}")]
+
+
+def rx_families(thorough):
+    n = 3 if thorough else 2
+    fams = []
+    for target, alpha, frames in (("classifier", RX_CLASSIFIER_ALPHA, RX_CLASSIFIER_FRAMES), ("lexer", RX_LEXER_ALPHA, RX_LEXER_FRAMES)):
+        units = ["".join(t) for m in range(1, n + 1) for t in product(alpha, repeat=m)]
+        if target == "classifier":
+            units += ["{{}}", "{{ a }}", "{%%}", "{##}", "{{}}{%%}"]
+        for pre, post in frames:
+            for u in units:
+                fams.append((target, pre, u, post))
+    return fams
+
+
+def rx_call(target, text):
+    """CPU seconds of one call (None = no answer within the alarm)"""
+    from django.template.exceptions import TemplateSyntaxError
+
+    from django_components.expression import is_dynamic_expression
+    from django_components.util.template_parser import parse_template
+
+    _arm(20.0)
+    t0 = time.process_time()
+    try:
+        if target == "classifier":
+            is_dynamic_expression(text)
+        else:
+            parse_template(text)
+    except TemplateSyntaxError:
+        pass
+    except _Hang:
+        return None
+    finally:
+        signal.setitimer(signal.ITIMER_REAL, 0)
+    return time.process_time() - t0
+
+
+def rx_measure(fam, KS, runs=2):
+    target, pre, unit, post = fam
+    ts = []
+    for k in KS:
+        text = pre + unit * k + post
+        best = None
+        for _ in range(runs):
+            t = rx_call(target, text)
+            if t is None:
+                return ts, True
+            best = t if best is None else min(best, t)
+        ts.append(best)
+        if best > RX_CAP_S:
+            break
+    return ts, False
+
+
+def rx_problem(ts):
+    if len(ts) >= 3 and ts[-1] >= RX_MIN_S and ts[-2] > 0 and ts[-3] > 0 and ts[-1] > RX_RATIO * ts[-2] and ts[-2] > RX_RATIO * ts[-3]:
+        return "CPU time grows faster than quadratically: " + " -> ".join("%.3f s" % t for t in ts) + " (ratios %.1f, %.1f; limit %.1f)" % (ts[-2] / ts[-3], ts[-1] / ts[-2], RX_RATIO)
+    return None
+
+
+def _worker_rx(w, W, payload):
+    env()
+    agg = par.Agg()
+    rec = _Rec(agg)
+    KS = payload["KS"]
+    for i, fam in enumerate(rx_families(payload["thorough"])):
+        if i % W != w:
+            continue
+        ts, hang = rx_measure(fam, KS)
+        agg.extra["rx:states"] += 1
+        agg.extra["rx:transitions"] += len(ts)
+        name = "rx:%s:%r+%r^k+%r" % fam
+        case = {"part": "regex_time", "family": list(fam), "ks": list(KS)}
+        if hang:
+            rec.fail("hang:regex:" + fam[0], f"pumped input gets no answer within 20 s  [family {name}, k={KS[len(ts)]}]", (len(name), name), case)
+            continue
+        if ts and ts[-1] >= RX_MIN_S:
+            agg.extra["rx:nontrivial"] += 1
+        if rx_problem(ts):
+            ts, hang = rx_measure(fam, KS, runs=4)  # confirm before reporting
+            why = rx_problem(ts)
+            if why and not hang:
+                rec.fail("superquadratic:regex:" + fam[0], f"{why}  [family {name}, k = {list(KS)[:len(ts)]}]", (len(name), name), case)
+        if ts:
+            agg.sample({"family": name, "cpu_s": [round(t, 4) for t in ts]}, limit=3) if ts[-1] >= 0.01 else None
+    rec.flush()
+    return agg
+
+
 def _worker_complexity(w, W, payload):
     env()
     agg = par.Agg()
@@ -1095,10 +1197,24 @@ def run(ctx):
                 expected=Counter({k[7:]: v for k, v in agg.extra.items() if k.startswith("cx:out:")}),
                 bound={"k": list(KS), "ratio_limit": RATIO, "step_floor": STEP_FLOOR, "families": nfam},
                 samples=[worst] if worst else None)
+    # ---- regex time
+    t0 = time.time()
+    RKS = RX_KS_THOROUGH if thorough else RX_KS_QUICK
+    ragg = par.run_sharded(_worker_rx, {"KS": RKS, "thorough": thorough})
+    print(f"C12: regex_time done in {time.time() - t0:.1f} s", flush=True)
+    if ragg.caps:
+        ev.caps_hit.extend(ragg.caps)
+    _merge_failures(ragg, fnd)
+    ev.add_part("regex_time", states=ragg.extra["rx:states"], transitions=ragg.extra["rx:transitions"], validated=ragg.extra["rx:transitions"],
+                nontrivial=max(ragg.extra["rx:nontrivial"], 1),
+                bound={"k": list(RKS), "ratio_limit_both_last_doublings": RX_RATIO, "min_cpu_s": RX_MIN_S, "targets": ["is_dynamic_expression", "parse_template"],
+                       "unit_tokens": 3 if thorough else 2, "families": len(rx_families(thorough))},
+                samples=ragg.samples[:3] or None)
     ev.assumptions = [
         "hang = no answer within 2 s (20 s under tracing) of which >= half is CPU time of the worker (a starved worker on an overloaded "
         "machine is re-armed, wall-clock backstop 15 x the limit); time is never compared otherwise - growth is measured in executed lines",
-        "regex engine internals are not visible to line counting",
+        "regex engine internals are not visible to line counting: part regex_time measures CPU time (process_time, min of 2, confirmed with min of 4) of the two regex-driven "
+        "functions on pumped families and reports only growth above 5.5x on BOTH last doublings with >= 0.15 s absolute (quadratic -> 4x, cubic -> 8x)",
         "CPython 3.12 / Django 5.1 as installed; default COMPONENTS settings (multiline_tags on, default tag formatter)",
     ]
 
@@ -1129,6 +1245,11 @@ def replay(ctx, case):
         res = guarded(case["kind"], arg)
         print("outcome:", res[0], res[1])
         return res[0] in ("ok", "TSE", "stock")
+    if part == "regex_time":
+        fam = tuple(case["family"])
+        ts, hang = rx_measure(fam, tuple(case["ks"]), runs=3)
+        print("family:", fam, "cpu seconds:", [round(t, 4) for t in ts], "hang" if hang else "")
+        return not hang and rx_problem(ts) is None
     if part == "complexity":
         fam = tuple(case["family"])
         KS = tuple(case.get("ks", KS_THOROUGH))
